@@ -14,7 +14,8 @@
 //!
 //! Oracle (`c07/reference.rs`, primitive libraries only): accepted ⇒ the conjunction of the
 //! property holds; the returned party id is the pool id of the cold key; the stake recorded for
-//! the key is the stake distribution's value for that pool; honest registrations are accepted.
+//! the key is the stake distribution's value for that pool; honest registrations (generated with the
+//! primitive libraries, and produced by the repository's own signer-side code) are accepted.
 
 use std::collections::BTreeMap;
 use std::sync::Arc;
@@ -31,6 +32,7 @@ use mithril_common::crypto_helper::{
     SignerRegistrationParameters, Sum6KesBytes,
 };
 use mithril_common::entities::{ProtocolParameters, Signer, SignerWithStake, StakeDistribution};
+use mithril_common::messages::RegisterSignerMessage;
 use mithril_common::protocol::SignerBuilder;
 use mithril_common::test::crypto_helper::SerDeShelleyFileFormatTestExtension;
 use rand_chacha::ChaCha20Rng;
@@ -271,12 +273,15 @@ fn material() -> Mat {
     Mat { pools, fresh, rogue, params: ProtocolParameters { k: 3, m: 10, phi_f: 0.8 } }
 }
 
-/// Produce the honest registration of pool `p` at evolution `t` through the real signer-side code
-/// (`KesSignerStandard` reading Shelley files, `ProtocolInitializer::setup`) and require that it is
-/// byte-identical to what this harness generates with the primitive libraries.
-fn cross_check_with_real_signer(ctx: &Ctx, m: &Mat, rep: &mut Report) {
+/// The honest registration of every pool at evolutions 0, 1, 63 produced by the real signer-side
+/// code (`KesSignerStandard` reading Shelley files written by the repository's codecs, `OpCert::new`,
+/// `ProtocolInitializer::setup`). They are cases of their own (family "real-signer": must satisfy the
+/// reference and be accepted) and are compared with what this harness generates with the primitive
+/// libraries (counted).
+fn real_signer_cases(ctx: &Ctx, m: &Mat, rep: &mut Report) -> Vec<Case> {
     let dir = ctx.scratch();
-    for (pi, p) in m.pools.iter().enumerate() {
+    let mut out = vec![];
+    for p in m.pools.iter() {
         let sk_path = dir.join(format!("kes-{}.skey", p.name));
         let cert_path = dir.join(format!("opcert-{}.cert", p.name));
         let mut kb = Sum6KesBytes([0u8; KES_SK_LEN]);
@@ -289,9 +294,6 @@ fn cross_check_with_real_signer(ctx: &Ctx, m: &Mat, rep: &mut Report) {
             p.cold_sk.clone(),
         );
         opcert.to_file(&cert_path).expect("write opcert");
-        if opcert.get_certificate_signature().to_bytes() != p.cert_sig || opcert.get_cold_verification_key().to_bytes() != p.cold_vk {
-            rep.machinery_error(format!("pool {}: OpCert::new disagrees with the directly signed certificate", p.name));
-        }
         for t in [0u32, 1, 63] {
             let signer: Arc<dyn KesSigner> = Arc::new(KesSignerStandard::new(sk_path.clone(), cert_path.clone()));
             let mut rng = ChaCha20Rng::from_seed([p.bls.seed; 32]);
@@ -299,13 +301,36 @@ fn cross_check_with_real_signer(ctx: &Ctx, m: &Mat, rep: &mut Report) {
                 .expect("real signer setup");
             let vkpop = init.verification_key_for_concatenation().to_bytes().to_vec();
             let sig = init.verification_key_signature_for_concatenation().map(|s| s.to_bytes().to_vec());
-            let mine = kes_sign(p, t, &p.bls.vkpop());
-            if vkpop != p.bls.vkpop() || sig.as_deref() != Some(&mine[..]) {
-                rep.machinery_error(format!("pool {pi} t={t}: real signer output differs from the harness' honest registration"));
-            }
-            rep.add_extra("honest_registrations_cross_checked_with_real_signer_code", 1);
+            let identical = vkpop == p.bls.vkpop()
+                && sig.as_deref() == Some(&kes_sign(p, t, &p.bls.vkpop())[..])
+                && opcert.get_certificate_signature().to_bytes() == p.cert_sig
+                && opcert.get_cold_verification_key().to_bytes() == p.cold_vk;
+            rep.add_extra(if identical { "real_signer_output_identical_to_generated" } else { "real_signer_output_differs_from_generated" }, 1);
+            let raw = Raw {
+                party_id: Some(opcert.compute_protocol_party_id().unwrap_or_default()),
+                cert: Some(RawCert {
+                    cold_vk: opcert.get_cold_verification_key().to_bytes().to_vec(),
+                    kes_vk: opcert.get_kes_verification_key().as_bytes().to_vec(),
+                    issue_number: opcert.get_issue_number(),
+                    start_kes_period: opcert.get_start_kes_period().0,
+                    cert_sig: opcert.get_certificate_signature().to_bytes().to_vec(),
+                }),
+                vk: vkpop[..96].to_vec(),
+                k1: vkpop[96..144].to_vec(),
+                k2: vkpop[144..].to_vec(),
+                kes_sig: sig,
+                announced: Some(t as u64),
+            };
+            out.push(Case {
+                family: "real-signer".into(),
+                label: format!("{} signed-at={t} by KesSignerStandard/ProtocolInitializer::setup", p.name),
+                route: Route::Register,
+                dist: dist(m, "with-C"),
+                regs: vec![Reg { raw, honest: true, claimed_stake: Some(p.stake) }],
+            });
         }
     }
+    out
 }
 
 // ------------------------------------------------------------------------------------------------
@@ -1052,6 +1077,37 @@ fn verifier_mirror(signer: &Signer, stake_distribution: &StakeDistribution, chai
     Ok(SignerWithStake { party_id: party_id_registered, ..SignerWithStake::from_signer(signer.to_owned(), party_id_registered_stake) })
 }
 
+/// The registration as it reaches the aggregator: JSON `RegisterSignerMessage` → serde →
+/// the conversions of `FromRegisterSignerAdapter::try_adapt`
+/// (mithril-aggregator/src/message_adapters/from_register_signer.rs). `claimed_stake` is an extra
+/// JSON member: the message has no stake field, a registrant can only try to add one.
+fn signer_via_wire(t: &Typed, claimed_stake: u64) -> Result<Signer, String> {
+    let e = |x: anyhow::Error| format!("{x:#}");
+    let mut msg = serde_json::Map::new();
+    msg.insert("epoch".into(), json!(5));
+    msg.insert("party_id".into(), json!(t.party_id.clone().unwrap_or_default()));
+    msg.insert("verification_key".into(), json!(t.key.to_json_hex().map_err(e)?));
+    if let Some(s) = &t.kes_sig {
+        msg.insert("verification_key_signature".into(), json!(s.to_json_hex().map_err(e)?));
+    }
+    if let Some(c) = &t.opcert {
+        msg.insert("operational_certificate".into(), json!(c.to_json_hex().map_err(e)?));
+    }
+    if let Some(a) = t.announced {
+        msg.insert("kes_period".into(), json!(a.0));
+    }
+    msg.insert("stake".into(), json!(claimed_stake));
+    let text = serde_json::to_string(&Value::Object(msg)).unwrap();
+    let m: RegisterSignerMessage = serde_json::from_str(&text).map_err(|x| x.to_string())?;
+    Ok(Signer {
+        party_id: m.party_id,
+        verification_key_for_concatenation: m.verification_key_for_concatenation.try_into().map_err(e)?,
+        verification_key_signature_for_concatenation: m.verification_key_signature_for_concatenation.map(|s| s.try_into().map_err(e)).transpose()?,
+        operational_certificate: m.operational_certificate.map(|c| c.try_into().map_err(e)).transpose()?,
+        kes_evolutions: m.kes_evolutions,
+    })
+}
+
 struct FixedKesSigner(Sum6KesSig, OpCert);
 impl KesSigner for FixedKesSigner {
     fn sign(&self, _message: &[u8], _current_kes_period: KesPeriod) -> StdResult<(Sum6KesSig, OpCert)> {
@@ -1223,6 +1279,17 @@ fn judge(
         );
     }
     // sanity of the generator/reference pair on the plainly honest cases
+    if case.family == "real-signer" && !v.holds() {
+        rep.violation(
+            "C07/real-signer-registration-fails-the-conjunction",
+            format!(
+                "the registration produced by the repository's signer-side code does not satisfy the reference conjunct {:?} [{}]",
+                v.first_failing(),
+                case.label
+            ),
+            replay_of(case, idx),
+        );
+    }
     let plainly_honest = matches!(case.family.as_str(), "window" | "splice") || (case.family == "ball" && case.label.ends_with(": honest"));
     if reg.honest && idx == 0 && !v.holds() && plainly_honest {
         rep.machinery_error(format!("reference rejects a registration the generator calls honest ({:?}): {} / {}", v.first_failing(), case.family, case.label));
@@ -1260,8 +1327,22 @@ fn run_register(m: &Mat, case: &Case, rep: &mut Report) {
             accepted.push((key_bytes[..96].to_vec(), v.stake));
             observe(m, case, reg, &v, rep);
         }
-        if rep.samples.len() < 2 && idx == 0 && (case.family == "window" || case.family == "splice") && v.opcert_signed {
-            rep.sample(json!({"family": case.family, "label": case.label, "accepted": matches!(real, Real::Accepted(_)), "reference_first_failing": v.first_failing()}));
+        const SAMPLED: [&str; 6] = [
+            "A signed-at=5 announced=Some(6)",
+            "A signed-at=5 announced=Some(7)",
+            "t=1 components=00010000 cert_sig=2 kes=2",
+            "A@1/operator: k2-of-other",
+            "A@1/outsider: party-id-of-1",
+            "honest-A ; B-registers-key-of-A",
+        ];
+        if idx + 1 == case.regs.len() && SAMPLED.contains(&case.label.as_str()) {
+            rep.sample(json!({
+                "family": case.family,
+                "label": case.label,
+                "registration": {"announced": reg.raw.announced, "claimed_party_id": reg.raw.party_id, "vk": hex::encode(&reg.raw.vk[..8]) + "…"},
+                "real": match &real { Real::Accepted(id) => format!("accepted as {id}"), Real::Rejected(e) => format!("rejected: {}", classify_error(e)), Real::Panicked(_) => "panic".into() },
+                "reference_first_failing_conjunct": v.first_failing(),
+            }));
         }
     }
     if accepted.is_empty() {
@@ -1340,13 +1421,17 @@ fn run_verifier(m: &Mat, case: &Case, chain: Option<u64>, rep: &mut Report) {
         // saturating, arithmetic is followed here and reported as an observation)
         let announced = reg.raw.cert.as_ref().map(|c| chain.unwrap_or(0).saturating_sub(c.start_kes_period));
         let v = reference(&reg.raw, &key_bytes, announced, &dmap, &[]);
-        let signer = Signer {
-            party_id: t.party_id.clone().unwrap_or_default(),
-            verification_key_for_concatenation: t.key,
-            verification_key_signature_for_concatenation: t.kes_sig,
-            operational_certificate: t.opcert.clone(),
-            kes_evolutions: t.announced,
+        // the registration travels as a RegisterSignerMessage (with a `stake` the registrant adds)
+        let signer = match catch(|| signer_via_wire(&t, 999_999_999)) {
+            Ok(Ok(s)) => s,
+            other => {
+                rep.machinery_error(format!("wire round trip of a decodable registration failed: {:?} [{}]", other.map(|r| r.map(|_| ())), case.label));
+                continue;
+            }
         };
+        if signer.verification_key_for_concatenation.to_bytes()[..] != key_bytes[..] || signer.kes_evolutions != t.announced {
+            rep.machinery_error(format!("wire round trip changed the registration [{}]", case.label));
+        }
         let res = catch(|| verifier_mirror(&signer, &sd, chain.map(KesPeriod)));
         let real = match &res {
             Ok(Ok(r)) => Real::Accepted(r.party_id.clone()),
@@ -1548,7 +1633,10 @@ pub fn run(ctx: &Ctx) -> ! {
         rep.finish(ctx);
     }
 
-    cross_check_with_real_signer(ctx, &m, &mut rep);
+    for c in real_signer_cases(ctx, &m, &mut rep) {
+        rep.add_extra("cases:real-signer", 1);
+        rep.merge(run_case(&m, &c));
+    }
 
     let thorough = ctx.tier.pick(false, true);
     type Job = Box<dyn Fn(&Mat, &mut Vec<Case>) + Sync + Send>;
@@ -1635,7 +1723,8 @@ pub fn run(ctx: &Ctx) -> ! {
          MithrilSignerRegistrationVerifier::verify (ProtocolKeyRegistration::init on the round's stake distribution, claimed party \
          id \"\" → None, KES evolutions = chain KES period − certificate start period with the repository's saturating \
          subtraction, register, stake looked up by the returned party id, SignerWithStake::from_signer) with the chain observer's \
-         answer as a parameter; the aggregator's own route is exercised by the aggregator checks",
+         answer as a parameter, on a Signer obtained from a JSON RegisterSignerMessage (carrying an extra `stake` member) by the \
+         conversions of FromRegisterSignerAdapter; the aggregator's own route is exercised by the aggregator checks",
     );
     rep.assume(
         "trusted base of the oracle: ed25519-dalek (non-strict `verify`, as RFC 8032 permits), kes-summed-ed25519 at evolutions \
